@@ -2,7 +2,7 @@
    to the model's answer and, where the property has an executable spec, the spec's answer.
    Extracted to OCaml; the hand-written driver only parses and prints tokens. *)
 From Coq Require Import ZArith Bool List String.
-From HF Require Import MachInt Outcome GenConsts GenLeap GenUnits Duration Epoch Gregorian TimeSeries F64 DurationF64 SignedNs Civil LeapSpec.
+From HF Require Import MachInt Outcome GenConsts GenLeap GenUnits Duration Epoch Gregorian TimeSeries F64 DurationF64 Views SignedNs Civil LeapSpec.
 Import ListNotations.
 Open Scope Z_scope.
 
@@ -352,7 +352,98 @@ Definition dispatch_float (name : string) (a : list tok) : option (list tok * li
   | _, _ => None
   end.
 
+(* ------------------------------------------------------------------ JD / MJD / UNIX views ---- *)
+Definition tfo (o : option f64) : list tok := match o with Some x => [TZ (f_to_bits x)] | None => nospec end.
+Definition DAY_NS : Z := 86400 * 1000000000.
+Definition HALF_DAY_NS : Z := 43200 * 1000000000.
+(* exact count of an affine view: count in scale t2 plus a constant; None when a bound is hit on the way *)
+Definition sview (t1 v t2 k : Z) : option Z :=
+  match sconv t1 v t2 with Some z => if in_rangev (z + k) then Some (z + k) else None | None => None end.
+Definition sview_f (o : option Z) (u : Z) : list tok :=
+  match o with
+  | Some z => [fwindow (fdiv (f_of_Z z) (f_of_Z (suf u)))
+                       (f_to_bits (fdiv (f_of_bits FOUR_ULP_OF_ONE_BITS) (fdiv (f_of_Z (suf u)) (f_of_Z 1000000000))))]
+  | None => nospec end.
+(* exact value of the f64 x (bits) minus the integer-or-half constant k2/2, times a unit factor f, floored, with a slack of
+   (|x| + |k|) * f * 2^-50 + 2 for the one or two roundings of the subtraction and of the product *)
+Definition affine_range (bits k2 f : Z) : Z * Z :=
+  let '(m, e) := f_mant_exp bits in
+  (* x - k2/2 = (2*m*2^e - k2) / 2 *)
+  let num := if 0 <=? e then 2 * m * 2 ^ e - k2 else 2 * m - k2 * 2 ^ (- e) in
+  let den := if 0 <=? e then 2 else 2 * 2 ^ (- e) in
+  let fl := (num * f) / den in
+  let mag := (if 0 <=? e then Z.abs m * 2 ^ e else Z.abs m / 2 ^ (- e) + 1) + Z.abs k2 in
+  let slack := 2 + (mag * f) / 2 ^ 50 in
+  (fl - slack, fl + 1 + slack).
+Definition UNIX_REF_UTC_NS : Z := 25567 * DAY_NS.   (* 1970-01-01T00:00:00 UTC as a UTC count: civil_days 1970 1 1 = 25567 *)
+
+Definition dispatch_views (name : string) (a : list tok) : option (list tok * list tok) :=
+  match name, a with
+  | "v_jde_tai_dur"%string, [TZ c; TZ n; TZ t] =>
+      let t := norm_ts t in
+      Some (topt tdur (to_jde_tai_duration (mk_epoch c n t)),
+            match sview t (pval c n) 0 (15020 * DAY_NS) with Some z => sdur_exact (z + 2400000 * DAY_NS + HALF_DAY_NS) | None => nospec end)
+  | "v_jde_utc_dur"%string, [TZ c; TZ n; TZ t] =>
+      let t := norm_ts t in
+      Some (topt tdur (to_jde_utc_duration (mk_epoch c n t)), topt sdur (sview t (pval c n) 4 (2415020 * DAY_NS + HALF_DAY_NS)))
+  | "v_jde_tt_dur"%string, [TZ c; TZ n; TZ t] =>
+      let t := norm_ts t in
+      Some (topt tdur (to_jde_tt_duration (mk_epoch c n t)), topt sdur (sview t (pval c n) 1 (2415020 * DAY_NS + HALF_DAY_NS)))
+  | "v_mjd_tt_dur"%string, [TZ c; TZ n; TZ t] =>
+      let t := norm_ts t in
+      Some (topt tdur (to_mjd_tt_duration (mk_epoch c n t)), topt sdur (sview t (pval c n) 1 (15020 * DAY_NS)))
+  | "v_tt_j2k"%string, [TZ c; TZ n; TZ t] =>
+      let t := norm_ts t in
+      Some (topt tdur (to_tt_since_j2k (mk_epoch c n t)), topt sdur (sview t (pval c n) 1 (- 3155716800 * 1000000000)))
+  | "v_mjd_tai"%string, [TZ c; TZ n; TZ t; TZ u] =>
+      let t := norm_ts t in
+      Some (tfo (to_mjd_tai (mk_epoch c n t) (unit_of_Z u)), sview_f (sview t (pval c n) 0 (15020 * DAY_NS)) u)
+  | "v_mjd_utc"%string, [TZ c; TZ n; TZ t; TZ u] =>
+      let t := norm_ts t in
+      Some (tfo (to_mjd_utc (mk_epoch c n t) (unit_of_Z u)), sview_f (sview t (pval c n) 4 (15020 * DAY_NS)) u)
+  | "v_jde_tai"%string, [TZ c; TZ n; TZ t; TZ u] =>
+      let t := norm_ts t in
+      Some (tfo (to_jde_tai (mk_epoch c n t) (unit_of_Z u)),
+            sview_f (match sview t (pval c n) 0 (15020 * DAY_NS) with Some z => if in_rangev (z + 2400000 * DAY_NS + HALF_DAY_NS) then Some (z + 2400000 * DAY_NS + HALF_DAY_NS) else None | None => None end) u)
+  | "v_jde_utc_days"%string, [TZ c; TZ n; TZ t] =>
+      let t := norm_ts t in
+      Some (tfo (to_jde_utc_days (mk_epoch c n t)), sview_f (sview t (pval c n) 4 (2415020 * DAY_NS + HALF_DAY_NS)) 6)
+  | "v_unix"%string, [TZ c; TZ n; TZ t; TZ u] =>
+      let t := norm_ts t in
+      Some (tfo (to_unix (mk_epoch c n t) (unit_of_Z u)), sview_f (sview t (pval c n) 4 (- UNIX_REF_UTC_NS)) u)
+  | "v_tt_cent"%string, [TZ c; TZ n; TZ t] =>
+      let t := norm_ts t in
+      Some (tfo (to_tt_centuries_j2k (mk_epoch c n t)), sview_f (sview t (pval c n) 1 (- 3155716800 * 1000000000)) 8)
+  | "from_mjd"%string, [TZ xb; TZ t] =>
+      let t := norm_ts t in
+      if f_finite_bits xb then
+        Some (tdur3 (dur (from_mjd_in_time_scale (f_of_bits xb) (ts_of_Z t))),
+              let '(lo, hi) := affine_range xb (2 * 15020) DAY_NS in [TNoSpec; TNoSpec; range_tok_clamped lo hi])
+      else None
+  | "from_jde"%string, [TZ xb; TZ t] =>
+      let t := norm_ts t in
+      if f_finite_bits xb then
+        Some (tdur3 (dur (from_jde_in_time_scale (f_of_bits xb) (ts_of_Z t))),
+              let '(lo, hi) := affine_range xb (2 * 2415020 + 1) DAY_NS in [TNoSpec; TNoSpec; range_tok_clamped lo hi])
+      else None
+  | "from_unix_s"%string, [TZ xb] =>
+      Some (match from_unix_seconds (f_of_bits xb) with Some e => tdur3 (dur e) | None => nospec end,
+            if f_finite_bits xb then
+              let '(lo, hi) := prod_range xb 1000000000 in [TNoSpec; TNoSpec; range_tok_clamped (UNIX_REF_UTC_NS + lo) (UNIX_REF_UTC_NS + hi)]
+            else nospec)
+  | "from_unix_ms"%string, [TZ xb] =>
+      Some (match from_unix_milliseconds (f_of_bits xb) with Some e => tdur3 (dur e) | None => nospec end,
+            if f_finite_bits xb then
+              let '(lo, hi) := prod_range xb 1000000 in [TNoSpec; TNoSpec; range_tok_clamped (UNIX_REF_UTC_NS + lo) (UNIX_REF_UTC_NS + hi)]
+            else nospec)
+  | "from_unix_d"%string, [TZ c; TZ n] =>
+      Some (match from_unix_duration (from_parts c n) with Some e => tepoch e | None => nospec end,
+            sdur (clamp (UNIX_REF_UTC_NS + pval c n)) ++ [TZ 4])
+  | _, _ => None
+  end.
+
 Definition dispatch (name : string) (a : list tok) : option (list tok * list tok) :=
+  match dispatch_views name a with Some r => Some r | None =>
   match dispatch_float name a with Some r => Some r | None =>
   match dispatch_duration name a with
   | Some r => Some r
@@ -360,7 +451,7 @@ Definition dispatch (name : string) (a : list tok) : option (list tok * list tok
             | Some r => Some r
             | None => dispatch_calendar name a
             end
-  end end.
+  end end end.
 
 (* decimal I/O helpers for the driver, so that the OCaml side needs no bignum code *)
 
